@@ -12,20 +12,20 @@ CHECKS = {
                 text="every token sequence (<=3, thorough <=4) over a 30-symbol value alphabet in 5 wrappings, every string <=3 over 56 symbols "
                      "spelled quoted, and every model document of the structure/value/adjacency/decoration sweeps in canonical and lenient "
                      "renderings is canonicalised by the real reader+emitter; metamorphic oracle: canonical text is strict-readable and a byte-exact "
-                     "fixed point; tool routes (octave_validate fed back, octave_write then normalize, CLI normalize twice) on the value sweep; plus the comment-placement sweep (every skeleton x every set of <=2 occupied comment places incl. header/footer), block targets with and without the section marker and 20 frontmatter shapes; text that is canonical for the API must be left alone by `octave normalize` too; verbatim lines that end in blanks (zones, frontmatter, empty comments)",
+                     "fixed point; tool routes (octave_validate fed back, octave_write then normalize, CLI normalize twice) on the value sweep; plus the comment-placement sweep (every skeleton x every set of <=2 occupied comment places incl. header/footer), block targets with and without the section marker and 20 frontmatter shapes; text that is canonical for the API must be left alone by `octave normalize` too; verbatim lines that end in blanks (zones, frontmatter, empty comments); bracket contents spread over several lines (line break / indent / comment between any two tokens, sequences <=4 over a 13-symbol pattern alphabet); constructor brackets with <=3 arguments over 11 argument shapes; 9-level documents",
                 note="finite alphabets and bounded document sizes (DESIGN.md §4/§7); no expectation about what the canonical text is",
                 tech="small-scope exhaustive enumeration of inputs (bounded model checking of emit∘parse as a fixed-point relation)"),
     "C02": dict(level="exploration", engine=E1,
                 text="every model document of S(4,3) (thorough S(5,4)), every pool value in 20 contexts, every ordered pair of pool values as "
                      "siblings and the decoration product is rendered canonically and in all lenient choice combinations up to the site bound and read "
-                     "by the real readers; oracle: astmap(read(text)) equals the generator's content model, also after emit and strict re-read; comment-placement sweep (9 skeletons x 3 META variants x all sets of <=2 of the node-lead / trailing / orphan / document-trailing / header / footer comment places), block-target and frontmatter shapes; header/footer comments are compared against the exact relocation the AST forces (KF-C02-1/2) and against nothing weaker",
+                     "by the real readers; oracle: astmap(read(text)) equals the generator's content model, also after emit and strict re-read; comment-placement sweep (9 skeletons x 3 META variants x all sets of <=2 of the node-lead / trailing / orphan / document-trailing / header / footer comment places), block-target and frontmatter shapes; header/footer comments are compared against the exact relocation the AST forces (KF-C02-1/2) and against nothing weaker; comment lines at column 0 inside a block body, a blank before a section annotation, 9-level documents",
                 note="the expected content comes from vt/docmodel.py, never from the parser; renderings stay inside the documented grammar",
                 tech="exhaustive enumeration of a bounded document space against an independent reference content model"),
     "C03": dict(level="exploration", engine=E1,
                 text="for every model document the product of choices at every lenient site (alias per operator occurrence, :: spacing, indent "
                      "width, blank/whitespace-only lines, trailing spaces, list layout, optional/triple quotes, omitted END) is enumerated (full "
                      "product up to 6 sites, thorough 10; singles+pairs+all-on beyond); all canonicalise to identical bytes and an independent "
-                     "line-level recogniser accepts every canonical text as strict profile; the recogniser also enforces the list-item / closing-bracket indent of multi-line lists; trailing blanks on envelope, META and separator lines, comment places and block-target spellings are rewrite sites too; further rewrite sites: optional quotes around a non-first operand, trailing blanks after comments, empty lines before the document, a percentage written bare",
+                     "line-level recogniser accepts every canonical text as strict profile; the recogniser also enforces the list-item / closing-bracket indent of multi-line lists; trailing blanks on envelope, META and separator lines, comment places and block-target spellings are rewrite sites too; further rewrite sites: optional quotes around a non-first operand, trailing blanks after comments, empty lines before the document, a percentage written bare; 9-level documents judged against the nesting level the generator knows for every line",
                 note="only the lenient freedoms listed in the property; strict-profile recogniser written from the documentation",
                 tech="exhaustive enumeration of the product of rewrite sites per document; convergence + independent recogniser"),
     "C04": dict(level="exploration", engine=E1,
@@ -44,7 +44,7 @@ CHECKS = {
                      "real code and compared byte-for-byte (timestamps masked) with the reference run of the same call alone in a fresh "
                      "process: full product PYTHONHASHSEED x cwd (two directories with identical schemas, and /) x locale over 270 calls; every "
                      "ordered pair of a 40-call (thorough 80) alphabet in long-lived workers; every ready-handle order of 2 (thorough 3) "
-                     "concurrently scheduled tool tasks on a virtual event loop against the sequential results; histories in which the schema's text is edited between calls (call | edit | call | edit back | call vs fresh processes); two threads over six workload pairs under a preemption-bounded scheduler (sys.monitoring): p=1 at call/return granularity (thorough: line granularity, plus p=2 at call granularity); a packaged schema name shadowed by a different file in cwd B; overwrites that lose several section markers with a common leading number",
+                     "concurrently scheduled tool tasks on a virtual event loop against the sequential results; histories in which the schema's text is edited between calls (call | edit | call | edit back | call vs fresh processes); two threads over six workload pairs under a preemption-bounded scheduler (sys.monitoring): p=1 at call/return granularity (thorough: line granularity, plus p=2 at call granularity); a packaged schema name shadowed by a different file in cwd B; overwrites that lose several section markers with a common leading number; canonical-mode ejects in every format in an order that would expose serialiser settings leaking between calls; META dicts adding several new keys",
                 note="timestamps masked by key name; OS-thread interleavings inside one interpreter are not enumerated (DESIGN.md §7)",
                 tech="explicit enumeration of configurations x ordered call pairs x event-loop schedules on the implementation, differential "
                      "against a fresh-process reference (stateless model checking)"),
@@ -52,20 +52,20 @@ CHECKS = {
                 text="all ordered chains of <=3 (thorough 4) atoms over a 33-atom constraint pool x 58 values on the real ConstraintChain; chains "
                      "of <=2 atoms also through a generated schema file + instance + octave_validate; document-level rules over schema policies x "
                      "instance shapes; oracles: composition (valid(chain) == no documented conflict and every member accepts) and an "
-                     "independent three-valued reference semantics per constraint kind",
+                     "independent three-valued reference semantics per constraint kind; undeclared fields with every kind of value (null, false, empty list, empty string)",
                 note="where the documentation does not determine a verdict the reference says UNSPEC and the case is not compared",
                 tech="exhaustive enumeration of constraint programs x values against an independent reference semantics"),
     "C09": dict(level="exploration", engine=E1,
                 text="34 instance variants of a generated schema (valid; invalid in each single way) x every lenient rendering (site product up "
                      "to the bound, singles+all-on beyond, thorough all pairs) + canonical(x) + canonical(canonical(x)) x 4 profiles x 4 entry "
-                     "points; identical (status, {(code, field)}) for all spellings, canonical text unchanged with fix off, idempotent envelopes; one Validator OBJECT reused for every document of a worker (twice per document); schemas that validate the YAML frontmatter (packaged SKILL) over 11 frontmatter shapes; ONE schema object shared by all documents of a worker with a block-target document in every history; CLI prints exactly the plain canonical text; PCT field with a text-sensitive constraint; a field routed to an undeclared target",
+                     "points; identical (status, {(code, field)}) for all spellings, canonical text unchanged with fix off, idempotent envelopes; one Validator OBJECT reused for every document of a worker (twice per document); schemas that validate the YAML frontmatter (packaged SKILL) over 11 frontmatter shapes; ONE schema object shared by all documents of a worker with a block-target document in every history; CLI prints exactly the plain canonical text; PCT field with a text-sensitive constraint; a field routed to an undeclared target; read-only validation (canonical text and the caller's AST) under every UNKNOWN_FIELDS policy x profile; wrong-case literal words as strings; fields named PATTERN / REGEX",
                 note="respellings are the documented lenient freedoms; the reference outcome is the canonical rendering's",
                 tech="exhaustive enumeration of respellings per (schema, instance); metamorphic equality of verdicts"),
     "C10": dict(level="exploration", engine=E1,
                 text="full product of tool arguments (content class x schema argument x profile x every flag/mode/format) for octave_validate, "
                      "octave_write, octave_eject, octave_compile_grammar and the CLI; invariants on every envelope: status present and one of the "
                      "documented values, VALIDATED only when a schema of that name exists (own directory scan) and no error-severity finding, "
-                     "UNVALIDATED otherwise, INVALID iff errors; schema life cycle: every event sequence of length <=4 (thorough 5) over {install v1, install v2, delete, go away, come back} against a (cwd, file) state model - after EVERY event validate and write must answer UNVALIDATED / VALIDATED / INVALID as the state says; schema files that are found but are not well-formed OCTAVE (unloadable names); an unknown META field; the canonical text of every VALIDATED answer is re-validated by a plain call",
+                     "UNVALIDATED otherwise, INVALID iff errors; schema life cycle: every event sequence of length <=4 (thorough 5) over {install v1, install v2, delete, go away, come back} against a (cwd, file) state model - after EVERY event validate and write must answer UNVALIDATED / VALIDATED / INVALID as the state says; schema files that are found but are not well-formed OCTAVE (unloadable names); an unknown META field; the canonical text of every VALIDATED answer is re-validated by a plain call; octave_write with mutations: the verdict must be the verdict of the written file; schema names that are proper prefixes of schema file names; a frontmatter-only schema",
                 note="LENIENT/ULTRA profiles downgrade by design; W_STRUCT salvage wraps are readable content (DESIGN.md §6)",
                 tech="exhaustive enumeration of the argument product; envelope invariants"),
     "C11": dict(level="exploration", engine=E1,
@@ -105,7 +105,7 @@ CHECKS = {
                      "EVERY file-system call boundary of the fault-free run is taken as kill point, power-loss point (unsynced data lost, "
                      "un-fsynced rename may or may not persist) and injected failure for 5 errnos, plus second deviations (fault then fault/"
                      "kill) as a deviation tree; oracle from the supervising process: target is complete old or complete new bytes, errors "
-                     "leave bytes+mode unchanged and no temp sibling, success implies sha256(file)==canonical_hash; scenarios include files that are canonical apart from CRLF / bare-CR line ends; an external modification injected before every call boundary up to the install step (shim mode EDIT); and a second fault layer in-process: a transient OSError (EINTR, EIO, ENOSPC) raised once at the j-th call of every OS-facing Python function of the write path; builtin META case-fold between emission and write; text that cannot be encoded as UTF-8",
+                     "leave bytes+mode unchanged and no temp sibling, success implies sha256(file)==canonical_hash; scenarios include files that are canonical apart from CRLF / bare-CR line ends; an external modification injected before every call boundary up to the install step (shim mode EDIT); and a second fault layer in-process: a transient OSError (EINTR, EIO, ENOSPC) raised once at the j-th call of every OS-facing Python function of the write path; builtin META case-fold between emission and write; text that cannot be encoded as UTF-8; short writes (every write() of the fault-free run stores half its buffer); modes sharing bits with common umasks",
                 note="the interposer sees every libc file call of the child; kernel-internal non-atomicity outside the model",
                 tech="exhaustive fault/crash-point enumeration (deviation-bounded, 2 deviations) on the implementation"),
     "C17": dict(level="model_checking", engine="E5 libc interposer stepper + E7 virtual asyncio loop",
@@ -113,28 +113,28 @@ CHECKS = {
                      "normalize, each also dry, 4 external modifications) x base_hash {none,current,stale,future} from every reachable "
                      "state, plus literal histories <=3 in one process; (b) two writer processes with the same base_hash stepped at every "
                      "visible libc operation on the target - ALL interleavings with state merging, at most one success, file = winner's bytes; "
-                     "(c) all ready-handle orders of 2 tool tasks; failed and dry calls leave the whole directory tree untouched; every non-dry content/changes event also through `octave write` (refused vs success); an event writing canonical content that contains a carriage return; one mixed MCP-tool / file_ops writer pair in the quick tier",
+                     "(c) all ready-handle orders of 2 tool tasks; failed and dry calls leave the whole directory tree untouched; every non-dry content/changes event also through `octave write` (refused vs success); an event writing canonical content that contains a carriage return; one mixed MCP-tool / file_ops writer pair in the quick tier; one writer + an external modification injected before every call up to the install step (different size; same size with file times kept): anything that lands before the temp file is synced must make the call fail",
                 note="base_hash on an absent file is UNSPECIFIED; writers share only the file system",
                 tech="explicit-state model checking: reference register model x implementation, all two-process schedules at libc call granularity"),
     "C18": dict(level="exploration", engine=E1,
                 text="base documents x every single change request {own top-level keys + 2 fresh} x {DELETE, null, 14 values} for body keys, "
                      "META.X and META{..}, all ordered request sequences <=k, multi-key requests; Absent at every AST position; oracle: frame "
                      "condition via an independent chunker (unnamed chunks byte-identical, same order), exact read-back of named keys; routes "
-                     "WriteTool and `octave write --changes`; a document with dotted / dashed / slashed keys and dotted META field names next to their own prefixes",
+                     "WriteTool and `octave write --changes`; a document with dotted / dashed / slashed keys and dotted META field names next to their own prefixes; maps inside lists whose values are all null; verbatim and dotted documents through `octave write --changes`",
                 note="dict values compared on merged pairs; requests naming a block are outside the property's quantifier",
                 tech="exhaustive enumeration of change requests and short request sequences; frame-condition oracle"),
     "C19": dict(level="exploration", engine="E5 libc interposer (vt/fsshim) + " + E1,
                 text="ALL path strings of depth <=d over {sub, ., .., link_in, link_out, '', newdir} x 15 final names x absolute/relative x 9 "
                      "operations run in a child under the interposer, which records every path handed to open/mkdir/rename/unlink; all schema "
                      "names <=n over 16 characters; frozen@ references; source URIs; oracle: an independent string classifier says MUST refuse "
-                     "=> refused AND no create/replace/remove/open-for-write outside (or at) the refused path; path-shaped schema names (absolute and relative, upper-case components whose lower-cased spelling exists outside the schema directories); `octave write --changes` among the operations",
+                     "=> refused AND no create/replace/remove/open-for-write outside (or at) the refused path; path-shaped schema names (absolute and relative, upper-case components whose lower-cased spelling exists outside the schema directories); `octave write --changes` among the operations; a schema directory in an ancestor of a working directory that has none; cache files that differ from the pinned bytes only in their line ends",
                 note="upper-case extensions, '.oct.md', over-long names are UNSPECIFIED: only containment is required there",
                 tech="exhaustive enumeration of path strings with system-call-level observation"),
     "C07": dict(level="exploration", engine=E1,
                 text="for every model document every combination of options at its receipt-bearing rewrite sites (full product up to 8 sites) is "
                      "rendered with exact positions, with and without all other lenient freedoms; multiset equality between injected rewrites and "
                      "receipts of parse_with_warnings, octave_validate.repairs, octave_write corrections (strict and lenient), plus the converse on "
-                     "canonical renderings and on every canonical text of the token space; pool strings include bare multi-word values with quoted chunks, frontmatter with non-LF line boundaries and block targets; receipts also under validate(fix=True), other profiles and debug flags",
+                     "canonical renderings and on every canonical text of the token space; pool strings include bare multi-word values with quoted chunks, frontmatter with non-LF line boundaries and block targets; receipts also under validate(fix=True), other profiles and debug flags; advisory receipts (duplicate_key, deep_nesting) need a cause the model can see; strict write of the same payload wrapped in one markdown fence",
                 note="advisory receipts are ignored in both directions (DESIGN.md §5.7)",
                 tech="exhaustive enumeration of subsets of rewrite sites; bijection check between injected rewrites and receipts"),
     "C20": dict(level="exploration", engine=E1,
